@@ -144,6 +144,31 @@ func genAnswer(t *rapid.T, name string, qtype uint16, l string) []byte {
 	m.RecursionAvailable = rapid.Bool().Draw(t, l+"ra")
 	m.AuthenticatedData = rapid.Bool().Draw(t, l+"ad")
 	m.Question = []dns.Question{{Name: name, Qtype: qtype, Qclass: dns.ClassINET}}
+	// kinds of cacheable answers: positive; NXDOMAIN with/without SOA (kept 30 s); bare SERVFAIL (kept 5 s);
+	// NODATA with SOA. (A NOERROR answer without any record has no TTL and is not stored.)
+	kind := rapid.SampledFrom([]string{"pos", "pos", "pos", "pos", "pos", "nx-soa", "nx-bare", "servfail-bare", "nodata-soa"}).Draw(t, l+"kind")
+	soa := func() dns.RR {
+		return &dns.SOA{Hdr: dns.RR_Header{Name: "example.", Rrtype: dns.TypeSOA, Class: dns.ClassINET, Ttl: uint32(rapid.IntRange(100, 100000).Draw(t, l+"soattl"))},
+			Ns: "ns.example.", Mbox: "root.example.", Serial: 7, Refresh: 3600, Retry: 600, Expire: 86400, Minttl: 300}
+	}
+	if kind != "pos" {
+		switch kind {
+		case "nx-soa":
+			m.Rcode = dns.RcodeNameError
+			m.Ns = []dns.RR{soa()}
+		case "nx-bare":
+			m.Rcode = dns.RcodeNameError
+		case "servfail-bare":
+			m.Rcode = dns.RcodeServerFailure
+		case "nodata-soa":
+			m.Ns = []dns.RR{soa()}
+		}
+		w, err := m.Pack()
+		if err != nil {
+			t.Skip("unpackable generated answer: " + err.Error())
+		}
+		return w
+	}
 	na := rapid.IntRange(1, 4).Draw(t, l+"na")
 	for i := 0; i < na; i++ {
 		m.Answer = append(m.Answer, dnsgen.GenRR(t, name, uint32(rapid.IntRange(100, 100000).Draw(t, l+"ttl")), fmt.Sprintf("%san%d", l, i)))
@@ -330,8 +355,8 @@ func runCase(c Case, ctx *hx.Ctx) *hx.Failure {
 				return hx.Failf("C10/harness", "Exec: %v", err)
 			}
 			if reached {
-				if !r.storedT0[op.Q].IsZero() && !c.Lazy {
-					// stored before, TTL >= 100 s, 3 keys in a 1024 cache: nothing allows a miss
+				if !r.storedT0[op.Q].IsZero() && !c.Lazy && time.Since(r.storedT0[op.Q]) < 2*time.Second {
+					// stored before, kept >= 5 s (TTL >= 100 s; NXDOMAIN 30 s; SERVFAIL 5 s), 3 keys in a 1024 cache: nothing allows a miss
 					return hx.Failf("C10/unexpected-miss", "question %d was stored %v ago but was not served from cache", op.Q, time.Since(r.storedT0[op.Q]))
 				}
 				if r.storedT0[op.Q].IsZero() {
